@@ -1,4 +1,6 @@
 import DaeVerif.C11.Model
+import DaeVerif.C11.Loop
+import DaeVerif.C11.AnyBuf
 import DaeVerif.Common.Proto
 /-! Line-protocol driver for C11.  Op families (bl/blx, trie/trieall, ac, alpha, cc, new/add/build/q/qall) (see the harness files
 `harness/overlay/{common/bitlist,pkg/trie,component/routing/domain_matcher}/c11_test.go`):
@@ -41,7 +43,7 @@ def blStep (st : BitList × List String) (op : String) : BitList × List String 
     | [i, v] =>
       match i.toNat?, hexToNat? v with
       | some i, some v =>
-        match b.set? i v with
+        match b.setGo? i v with
         | some b' => (b', out)
         | none => (b, "panic" :: out)
       | _, _ => (b, "bad" :: out)
@@ -49,7 +51,7 @@ def blStep (st : BitList × List String) (op : String) : BitList × List String 
   | 'a' :: ':' :: rest =>
     match hexToNat? (String.ofList rest) with
     | some v =>
-      match b.append? v with
+      match b.appendGo? v with
       | some b' => (b', out)
       | none => (b, "panic" :: out)
     | none => (b, "bad" :: out)
@@ -70,6 +72,47 @@ def handleBl (toks : List String) : String :=
     | some unit =>
       let (b, out) := ops.foldl blStep (BitList.new unit, [])
       s!"g={",".intercalate out.reverse} | st={blDump b}"
+    | none => "bad-op"
+  | _ => "bad-op"
+
+/-! ### anybuffer -/
+
+def abStep (st : ABuf × Nat) (op : String) : ABuf × Nat :=
+  let (b, p) := st
+  match op.toList with
+  | 'e' :: rest =>
+    match (String.ofList rest).toNat? with
+    | some n => (b.extend n, p)
+    | none => (b, p + 1000)
+  | 'w' :: rest =>
+    match (String.ofList rest).splitOn ":" with
+    | [i, v] =>
+      match i.toNat?, hexToNat? v with
+      | some i, some v =>
+        match b.write i v with
+        | some b' => (b', p)
+        | none => (b, p + 1)
+      | _, _ => (b, p + 1000)
+    | _ => (b, p + 1000)
+  | 't' :: rest =>
+    match (String.ofList rest).toNat? with
+    | some n =>
+      match b.truncate n with
+      | some b' => (b', p)
+      | none => (b, p + 1)
+    | none => (b, p + 1000)
+  | ['f'] => (ABuf.ofArray b.slice.toArray, p)
+  | _ => (b, p + 1000)
+
+def handleAb (toks : List String) : String :=
+  match toks with
+  | sz :: ops =>
+    match sz.toNat? with
+    | some size =>
+      let (b, p) := ops.foldl abStep (ABuf.new size, 0)
+      let body := wordsHex b.slice
+      let body := if b.slice.length > 64 then "fnv:" ++ natToHex (fnv64 body) else body
+      s!"p={p} len={b.len} s={body} | cap={b.cap}"
     | none => "bad-op"
   | _ => "bad-op"
 
@@ -147,6 +190,9 @@ structure Sess where
   bitLength : Nat := 0
   log : List AddCall := []      -- reversed; a negative Go index is recorded as `bitLength` (addSetInt_neg)
   cur : Built := ⟨#[]⟩          -- what queries see (`Built.unbuilt` before the first successful Build)
+  ix : Idx := {}                -- the index lists `Build` left behind (order: ascending, or as reported by `ix`)
+  lowLog : List AddCall := []   -- the calls in order, patterns lower-cased (fixed at the first successful Build)
+  used : List Nat := []         -- the indices < bitLength some call addressed, ascending
   builds : Nat := 0             -- successful Builds so far
   lateErr : Bool := false       -- an AddSet arrived after a successful Build (the tables are gone: error)
 
@@ -178,10 +224,38 @@ def decodeWords (ws : List Nat) (n : Nat) : List Nat :=
 def parseHits (hits : String) : Option (List Nat) :=
   if hits = "-" then some [] else (hits.splitOn ",").mapM String.toNat?
 
+def parseIdxList (tok : String) : Option (List Nat) :=
+  if tok = "-" then some [] else (tok.splitOn ",").mapM String.toNat?
+
+/-- the cross-checks of one `q` answer (`louds` = the set bits of the loop's words): the trie contract
+and, for a name of the property's alphabet after exactly one Build, the documented meaning -/
+def crossCheck (s : Sess) (name : Str) (hits : List Nat) (ws : List Nat) : String :=
+  let b := s.cur
+  let louds := decodeWords ws s.bitLength
+  let dom := normName name
+  let spec := s.used.filter fun i =>
+    match b.sets[i]? with
+    | none => false
+    | some bs => bs.matchesSpec dom hits
+  let e1 := if louds.all s.used.contains && spec == louds then "" else s!" spec={idxStr spec}"
+  let e2 :=
+    if s.builds != 1 || !plainName name then "" else
+    let dh := docHitIdx s.lowLog dom hits
+    let doc := s.used.filter dh.contains
+    if doc == louds then "" else s!" doc={idxStr doc}"
+  -- small tables: also the per-set definition the headline theorems are stated about
+  let e3 :=
+    if s.bitLength > 96 then "" else
+    match b.matchBitmap name hits with
+    | some ws' => if ws' == ws then "" else s!" idx={idxStr (decodeWords ws' s.bitLength)}"
+    | none => " idx=crash"
+  e3 ++ e1 ++ e2
+
 def handleSess (s : Sess) (line : String) : Sess × String :=
   match words line with
   | "bl" :: rest => (s, handleBl rest)
   | "blx" :: rest => (s, handleBl rest)      -- unit size 0 / out-of-range values: diagnostic class
+  | "ab" :: rest => (s, handleAb rest)
   | "trie" :: rest => (s, handleTrie rest)
   | "trieall" :: rest => (s, handleTrieAll rest)
   | "ac" :: rest => (s, handleAc rest)
@@ -202,33 +276,37 @@ def handleSess (s : Sess) (line : String) : Sess × String :=
     | _, _ => (s, "bad-op")
   | ["build"] =>
     if s.lateErr then (s, "err:toomany")
-    else if s.builds > 0 then ({ s with cur := s.cur.rebuild, builds := s.builds + 1 }, "ok")
+    else if s.builds > 0 then
+      let b := s.cur.rebuild
+      ({ s with cur := b, ix := Idx.ofBuilt b, builds := s.builds + 1 }, "ok")
     else
-      match (Matcher.replay s.bitLength s.log.reverse).build with
-      | .ok b => ({ s with cur := b, builds := 1 }, "ok")
+      let log := s.log.reverse
+      match (Matcher.replay s.bitLength log).build with
+      | .ok b =>
+        let usedAll := log.map (·.idx)
+        ({ s with cur := b, ix := Idx.ofBuilt b, lowLog := log.map AddCall.lowered,
+                  used := (List.range s.bitLength).filter usedAll.contains, builds := 1 }, "ok")
       | .error e => (s, errStr e)
+  | ["ix", vt, va, vr] =>
+    -- the order in which the real Build's workers committed: any order of the right sets is a
+    -- schedule of the model (`Reach`); the following queries run the loops in that order
+    match parseIdxList vt, parseIdxList va, parseIdxList vr with
+    | some vt, some va, some vr =>
+      let ix : Idx := ⟨vt, va, vr⟩
+      if ix.permOf (Idx.ofBuilt s.cur) then ({ s with ix := ix }, "ok") else (s, "bad-schedule")
+    | _, _, _ => (s, "bad-op")
   | ["q", name, hits] =>
     match hexStr? name, parseHits hits with
     | some name, some hits =>
-      let b := s.cur
-      match b.matchBitmap name hits, b.matchIndices name hits with
-      | some ws, some louds =>
-        let spec := b.matchIndicesSpec name hits
-        let log := s.log.reverse
-        -- docMatches is trivially false for an index no AddSet call addressed: evaluate it on the others
-        let used := log.map (·.idx)
-        let doc := (List.range s.bitLength).filter fun i => used.contains i && docMatches log i name hits
-        let extra := (if decodeWords ws s.bitLength == louds then "" else s!" idx={idxStr louds}") ++
-          (if spec == louds then "" else s!" spec={idxStr spec}") ++
-          (if s.builds != 1 || !plainName name || doc == louds then "" else s!" doc={idxStr doc}")
-        (s, s!"w={wordsStr ws}{extra}")
-      | _, _ => (s, "crash")
+      match s.cur.matchLoop s.ix name hits with
+      | some ws => (s, s!"w={wordsStr ws}{crossCheck s name hits ws}")
+      | none => (s, "crash")
     | _, _ => (s, "bad-op")
   | ["qall"] =>
     -- every pattern text of the session as a query (no regex sets in such sessions)
     let names := s.log.reverse.flatMap fun a => a.pats.map (·.s)
     let outs := names.map fun nm =>
-      match s.cur.matchBitmap nm [] with
+      match s.cur.matchLoop s.ix nm [] with
       | some ws => wordsStr ws
       | none => "crash"
     let hit := outs.countP fun o => o.any fun c => c != '0' && c != '.' && c != '-'
